@@ -1184,6 +1184,7 @@ func disRunCmd(args []string) int {
 		}
 		maxc := uint64(rng.pick(1, 2, 7, 50, 200, 400, 0x101, 600))
 		useFlat := i%2 == 1
+		useCommit := rng.n(2) == 0
 		if *only >= 0 && i != *only {
 			continue
 		}
@@ -1204,7 +1205,7 @@ func disRunCmd(args []string) int {
 			Write([]byte) (int, error)
 		}
 		cl := &disCommitLogger{}
-		if rng.n(2) == 0 {
+		if useCommit {
 			a.Logger = cl
 			logger = cl
 		} else {
